@@ -78,6 +78,13 @@ def assemble(scratch, sections, name="obj"):
     return opath
 
 
+def link(scratch, obj_path, text_addr, name="linked"):
+    """link an object at a chosen .text address (executables at high addresses are printed flush-left by objdump)"""
+    out = os.path.join(scratch.dir, name + ".elf")
+    p = subprocess.run(["ld", "-o", out, "-Ttext=0x%x" % text_addr, "-e", "0", obj_path], capture_output=True, text=True)
+    return out if p.returncode == 0 and os.path.exists(out) else None
+
+
 def objdump(path, sections=()):
     args = ["objdump", "-d", "-M", "att"]
     for s in sections:
